@@ -11,7 +11,7 @@ pub(crate) fn try_from<'a, P: Pe<'a>>(pe: P) -> Result<Security<'a>> {
 		return Err(Error::Unmapped);
 	}
 	// Manual alignment and size check
-	let datadir = pe.data_directory().get(IMAGE_DIRECTORY_ENTRY_SECURITY).ok_or(Error::Bounds)?;
+	let datadir = pe.data_directory().get(IMAGE_DIRECTORY_ENTRY_SECURITY).ok_or(Error::Null)?;
 	if datadir.VirtualAddress == 0 {
 		return Err(Error::Null);
 	}
